@@ -972,6 +972,8 @@ class Interp:
             return bool(v.v)
         if isinstance(v, Tup):
             return len(v.items) > 0
+        if isinstance(v, DictV) and v.entries:
+            return True             # a dictionary with known entries is truthy
         if isinstance(v, (FuncRef, ClassRef, Obj, ExtRef, LambdaRef)):
             return True
         return self.dom.truth(v)
@@ -1090,7 +1092,21 @@ class Interp:
         return BoundMethod(o, name)
 
     def ev_Call(self, node, frame):
-        # super().method(...)
+        # super().method(...): the method of the next class in the chain of the class that defines the current method, bound to self
+        if isinstance(node.func, ast.Attribute) and isinstance(node.func.value, ast.Call) and isinstance(node.func.value.func, ast.Name) \
+                and node.func.value.func.id == 'super' and not node.func.value.args and frame.fi is not None and frame.fi.cls is not None:
+            me = self.lookup(frame.fi.params[0], frame, node) if frame.fi.params else None
+            if isinstance(me, Obj):
+                chain = self.db.class_chain(frame.fi.cls)
+                target = None
+                for c in chain[1:]:
+                    if node.func.attr in c.methods:
+                        target = c.methods[node.func.attr]
+                        break
+                if target is not None:
+                    args = [self.ev(a, frame) for a in node.args]
+                    kwargs = {k.arg: self.ev(k.value, frame) for k in node.keywords if k.arg is not None}
+                    return self.call_funcinfo(target, args, kwargs, me, node)
         f = self.ev(node.func, frame)
         args = []
         for a in node.args:
